@@ -41,7 +41,7 @@ Lemma loops_overflowing_add w n a b : 0 < w -> wf w n a -> wf w n b ->
   Loops.overflowing_add w (Z.of_nat n) fuel a b = Done (U_overflowing_add w a b).
 Proof.
   intros Hw [Ha _] [Hb _] fuel Hf. subst n. unfold Loops.overflowing_add. rewrite Nat2Z.id.
-  rewrite (loop_scan2_all (carrying_add w) a b); try first [assumption | apply repeat_length | reflexivity].
+  rewrite (loop_scan2_all_c (carrying_add w) a b); try first [assumption | apply repeat_length | reflexivity | (intros; zbool_lia)].
   - cbn [bind]. unfold U_overflowing_add. rewrite add_loop_scan2.
     destruct (scan2 (carrying_add w) a b false). reflexivity.
   - intros out c j Hj Hl. body_red. rewrite !arr_get_nat by lia. cbn [bind]. step_pairs.
@@ -53,7 +53,7 @@ Lemma loops_overflowing_sub w n a b : 0 < w -> wf w n a -> wf w n b ->
   Loops.overflowing_sub w (Z.of_nat n) fuel a b = Done (U_overflowing_sub w a b).
 Proof.
   intros Hw [Ha _] [Hb _] fuel Hf. subst n. unfold Loops.overflowing_sub. rewrite Nat2Z.id.
-  rewrite (loop_scan2_all (borrowing_sub w) a b); try first [assumption | apply repeat_length | reflexivity].
+  rewrite (loop_scan2_all_c (borrowing_sub w) a b); try first [assumption | apply repeat_length | reflexivity | (intros; zbool_lia)].
   - cbn [bind]. unfold U_overflowing_sub. rewrite sub_loop_scan2.
     destruct (scan2 (borrowing_sub w) a b false). reflexivity.
   - intros out c j Hj Hl. body_red. rewrite !arr_get_nat by lia. cbn [bind]. step_pairs.
